@@ -166,7 +166,8 @@ def rule_bail_out_sites(ctx, mir, rid="R11.1"):
     r = ctx.rule(rid, "every Err exit of TransformStream::write/end passes should_bail_out_for; on its true edge run_bail_out_handlers precedes every flush_for_bail_out and a flush lies on every path to the return; on the false edge neither is called", "E-MIR", floor=4)
     sites = []
     for f in (write, end):
-        errs = f.err_return_blocks()
+        # the tail call of Dispatcher::finish in end() is the documented exception (rule R11.1x)
+        errs = [e for e in f.err_return_blocks() if not (f.blocks[e]["term"]["k"] == "call" and callee_key(f.blocks[e]["term"]).endswith("Dispatcher::finish"))]
         sb = [bi for bi, t in f.calls(r"TransformStream::should_bail_out_for$")]
         r.count("err_exits", len(errs))
         r.count("should_bail_out_for_calls", len(sb))
